@@ -29,6 +29,7 @@ package batch
 //@   ensures record_keys: (r is types.Record) ==> ((out is types.Record) && (forall kk types.String :: has(out.(types.Record).m, kk) == has(r.(types.Record).m, kk)))
 //@   ensures record_vals: (r is types.Record) ==> (forall kk types.String :: has(r.(types.Record).m, kk) ==> out.(types.Record).m[kk] == cloneSub#0(r.(types.Record).m[kk], k, v))
 //@   ensures unchanged: !changed ==> out == r
+//@   ensures set_members: ((r is types.Set) && changed) ==> ((out is types.Set) && (forall x types.Value :: { member(out.(types.Set).s, x) } member(out.(types.Set).s, x) == (exists y types.Value :: iter_Set_All(r.(types.Set), y) && valEq(x, cloneSub#0(y, k, v)))))
 //@   ensures scalar: (!(r is types.EntityUID) && !(r is types.Record) && !(r is types.Set)) ==> (out == r && !changed)
 //@   loop 1
 //@     invariant isnil(newMap) ==> (forall kk types.String :: $done[kk] ==> cloneSub#0(t.m[kk], k, v) == t.m[kk])
@@ -38,6 +39,9 @@ package batch
 //@   loop 2
 //@     invariant !hasDeltas ==> (forall x types.Value :: $done[x] ==> !mentions(x, k))
 //@     invariant hasDeltas ==> mentions(r, k)
+//@   loop 3
+//@     invariant forall j int :: (0 <= j && j < len(newSlice)) ==> (exists y types.Value :: $done[y] && newSlice[j] == cloneSub#0(y, k, v))
+//@     invariant forall y types.Value :: $done[y] ==> (exists j int :: 0 <= j && j < len(newSlice) && newSlice[j] == cloneSub#0(y, k, v))
 
 // ------------------------------------------- final authorization (C05)
 // The decision rule batch applies to the residual policies is the rule of
